@@ -25,6 +25,13 @@ var queryInterfaces = map[string][]string{
 	"toolbox3d": {"GearProfile"},
 }
 
+// queryTypes: concrete types outside those interfaces whose exported methods
+// are all read-only queries over an immutable structure built once.
+var queryTypes = map[string]string{
+	"SolidMux":  "the containment multiplexer answers for the solids it was built from",
+	"CoordTree": "the point tree is built once by NewCoordTree and only searched afterwards",
+}
+
 // meshMutators: methods of Mesh that are documented to modify the mesh (not
 // safe for concurrent use by contract). Everything else is a read method.
 var meshMutators = map[string]bool{
@@ -120,6 +127,24 @@ func (c *Ctx) runQueryPurityFor(eng *effEngine, pkgs []*packages.Package, rule s
 					}
 					seen[f] = true
 					targets = append(targets, target{fn, "implements " + it.name, objName(f)})
+				}
+			}
+			// query-only concrete types
+			if why, isQ := queryTypes[n]; isQ && (p.PkgPath == repoMod+"/model3d" || p.PkgPath == repoMod+"/model2d") {
+				if _, all := queryInterfaces["toolbox3d"]; all {
+					ms := types.NewMethodSet(ptr)
+					for i := 0; i < ms.Len(); i++ {
+						f, _ := ms.At(i).Obj().(*types.Func)
+						if f == nil || !f.Exported() || seen[f] {
+							continue
+						}
+						fn := c.Prog.FuncValue(f)
+						if fn == nil || fn.Blocks == nil {
+							continue
+						}
+						seen[f] = true
+						targets = append(targets, target{fn, "query method of " + n + " (" + why + ")", objName(f)})
+					}
 				}
 			}
 			// Mesh read methods
